@@ -379,6 +379,76 @@ def tombstone_rule(rep, f):
     rep.floor("C14.f", n, 1)
 
 
+def delete_data_rule(rep, rid="C14.g"):
+    rep.rule(rid, "character-data deletion is consistent with itself (DOMCharacterDataImpl::deleteData): (1) the count is bounded by "
+             "the data length before `offset + count` is formed (an assignment `count = len` under `count > len` precedes the sum on "
+             "every path), so the sum cannot wrap for the delete-to-the-end idiom deleteData(n, (XMLSize_t)-1); (2) the live ranges "
+             "are told exactly what was removed: the count passed to updateRangeForDeletedText is the variable that sizes the edit "
+             "(new length = len - count), not the caller's raw argument")
+    g = core.run_xa([os.path.join(core.REPO, "src/xercesc/dom/impl/DOMCharacterDataImpl.cpp")], cfg=r"^DOMCharacterDataImpl::deleteData$", flat=False)
+    cfg = guard.Cfg(g.cfg("DOMCharacterDataImpl::deleteData"))
+    # the variable that sizes the edit: newLen = <len> - V
+    V = LEN = None
+    for b, i, el in cfg.elements():
+        for d in el.get("decl", []):
+            r = d[2]
+            if r and r[0] == "b" and r[1] == "-" and r[2][0] == "l" and r[3][0] in ("l", "p"):
+                LEN, V = r[2], r[3]
+    if V is None:
+        raise AnalysisBroken("deleteData: the new length is no longer computed as len - count")
+
+    def name(v):
+        return v[1] if v[0] == "l" else v[2]
+    # (1) clamp precedes the sum
+    def is_clamp(el):
+        x = el.get("x")
+        return bool(x) and x[0] == "b" and x[1] == "=" and name(x[2]) == name(V) if (x and x[0] == "b" and x[1] == "=" and x[2][0] in ("l", "p")) else False
+
+    def is_clamp_to_len(el):
+        x = el.get("x")
+        return bool(x) and x[0] == "b" and x[1] == "=" and x[2][0] in ("l", "p") and name(x[2]) == name(V) and x[3] == LEN
+
+    def has_sum(x):
+        return guard.mentions(x, lambda y: isinstance(y, list) and len(y) == 4 and y[0] == "b" and y[1] == "+" and
+                              {y[2][0], y[3][0]} <= {"l", "p"} and name(V) in (name(y[2]), name(y[3])))
+    clamp_edges = set()
+    for bid, blk in cfg.blocks.items():
+        t = blk.get("term")
+        c = t and t.get("cond")
+        if c and c[0] == "b" and c[1] in (">", ">=") and c[2][0] in ("l", "p") and name(c[2]) == name(V) and c[3] == LEN:
+            s0 = blk["succ"][0]
+            if s0 is not None and any(is_clamp_to_len(e) for e in cfg.blocks[s0]["els"]):
+                clamp_edges.add((bid, 1))       # the false edge: count <= len already
+    st = guard.must_state(cfg, gen_el=is_clamp_to_len, gen_edge=lambda p, k: (p, k) in clamp_edges)
+    sums = []
+    for bid, blk in cfg.blocks.items():
+        t = blk.get("term")
+        if t and t.get("cond") and has_sum(t["cond"]):
+            sums.append((bid, len(blk["els"]), t.get("l")))
+        for i, el in enumerate(blk["els"]):
+            x = el.get("x")
+            if x and x[0] == "b" and has_sum(x):
+                sums.append((bid, i, el.get("l")))
+    if not sums:
+        rep.notes.append("%s: deleteData forms no sum of the offset and the count on this tree; the overflow clause has nothing to check" % rid)
+    bad = sorted({l for b, i, l in sums if not st(b, i)})
+    rep.ob(rid, "deleteData/clamp", not bad, ("count bounded by the length before offset + count" if sums else "no offset + count formed") if not bad else
+           "DOMCharacterDataImpl::deleteData forms offset + %s at line %s without having bounded %s by the data length first: for a count near "
+           "the maximum the sum wraps and the data grows instead of being truncated" % (name(V), bad, name(V)),
+           "src/xercesc/dom/impl/DOMCharacterDataImpl.cpp:%s" % (bad[0] if bad else 0))
+    # (2) ranges get the same count
+    ss = guard.sites(cfg, lambda x: x[0] == "c" and x[1].split("::")[-1] == "updateRangeForDeletedText" and len(x[3]) == 3)
+    if not ss:
+        raise AnalysisBroken("deleteData no longer notifies the ranges")
+    for b, i, el in ss:
+        a = el["x"][3][2]
+        ok = a[0] in ("l", "p") and name(a) == name(V)
+        rep.ob(rid, "deleteData/notify", ok, "ranges are given the count that sized the edit" if ok else
+               "DOMCharacterDataImpl::deleteData (line %s) tells the ranges that %s characters were deleted while the data was shortened by %s: "
+               "boundary points behind the deletion move by the wrong amount" % (el.get("l"), core.sx_str(a), name(V)),
+               "src/xercesc/dom/impl/DOMCharacterDataImpl.cpp:%s" % el.get("l", 0))
+
+
 def run(rep):
     f = core.library_facts()
     rep.units.update(os.path.relpath(t, core.REPO) for t in f.tus)
@@ -388,6 +458,7 @@ def run(rep):
     initial_state_rule(rep, f)
     symmetry_rule(rep)
     tombstone_rule(rep, f)
+    delete_data_rule(rep)
     diag.run(rep, f, "C14")
     from ..engines import dispatch
     dispatch.run(rep, f, "C14")
